@@ -240,7 +240,7 @@ theorem select_declared_error (rs : List Resp) (s : Nat) (hs : 400 ≤ s ∧ s <
     have := (processedPrimary_spec hp).2.2.1
     rw [← heq, hk, hns] at this
     cases this
-  have hxa : otherArm x = some (s, .raiseAlias s) := by
+  have hxa : otherArm (resolveStrategy rs).isStreaming x = some (s, .raiseAlias s) := by
     rw [otherArm_num hk, hns]; simp [hab]
   have hex : ∃ a ∈ arms rs, a.1 = s := ⟨_, otherArm_mem_arms hxo hxa, rfl⟩
   have hall : ∀ a ∈ arms rs, a.1 = s → a.2 = Action.raiseAlias s := by
